@@ -104,6 +104,7 @@ def gen_genotype(r):
 
 def run(tier, replay=None):
     from mchap import jitutils as J
+    from mchap import combinatorics as CB
     from mchap.calling.utils import posterior_as_array
 
     chk = C.Check(PROP, tier, MODULE, THEOREMS, RULE, assumptions=[
@@ -118,7 +119,9 @@ def run(tier, replay=None):
     # ---------------- comb / cwr
     combs = gen_comb_cases(r, int(600 * scale) + 70)
     # comb_with_replacement cases: the same binomials re-expressed as multiset coefficients
-    cwrs = sorted({(n - k + 1, k) for n, k in combs if n >= k} | {(0, 0), (0, 1), (1, 0), (0, 5), (99, 11), (100, 11), (99, 12)})
+    cwrs = sorted({(n - k + 1, k) for n, k in combs if n >= k} | {(0, 0), (0, 1), (1, 0), (0, 5), (99, 11), (100, 11), (99, 12)}
+                  # multiset coefficients whose float evaluation is off by one although far below 2^53
+                  | {(18, 14), (15, 17), (20, 15), (66, 10), (99, 9), (178, 8), (2361, 5), (45, 11), (39, 12)})
     lines = [f"comb {n} {k}" for n, k in combs] + [f"cwr {n} {k}" for n, k in cwrs]
     ans = drv.ask(lines)
     for idx, ((n, k), a) in enumerate(zip(combs + cwrs, ans)):
@@ -146,6 +149,17 @@ def run(tier, replay=None):
                               signature=f"C11/{name}/wrong-value")
         else:
             chk.count(f"{name}:beyond-2^53")
+        # the Python-level multiset coefficient that sizes every G-length array (GP / GL / posterior arrays)
+        if is_cwr and truth < LIMIT and not (n == 0 and k == 0):
+            try:
+                cu = int(CB.count_unique_genotypes(n, k))
+            except Exception as e:  # noqa
+                cu = f"error:{type(e).__name__}"
+            chk.count("count_unique_genotypes")
+            if cu != truth:
+                chk.violation(f"count_unique_genotypes({n},{k}) returned {cu}, exact value {truth} < 2^53 (it sizes the G-length arrays)",
+                              {"fn": "count_unique_genotypes", "n": n, "k": k, "impl": cu, "expected": truth},
+                              signature="C11/count_unique_genotypes/wrong-value")
 
     # ---------------- encode / decode / increment on random genotypes
     gcases = [gen_genotype(r) for _ in range(int(500 * scale) + 20)]
